@@ -150,6 +150,7 @@ type Turn struct {
 	StreamState string            // cursor token to echo ("" = omit)
 	CallState   string            // call token to echo ("" = omit)
 	Cancel      bool              // add vgi_rpc.cancel
+	CancelValue *string           // value of the cancel key (nil: "true"); the signal is the key's presence
 	Meta        [][2]string       // user metadata placed BEFORE the framework keys
 	MetaAfter   [][2]string       // user metadata placed after them
 }
@@ -168,7 +169,11 @@ func (u Turn) Encode() []byte {
 		k, v = append(k, KeyCallState), append(v, u.CallState)
 	}
 	if u.Cancel {
-		k, v = append(k, KeyCancel), append(v, "true")
+		cv := "true"
+		if u.CancelValue != nil {
+			cv = *u.CancelValue
+		}
+		k, v = append(k, KeyCancel), append(v, cv)
 	}
 	for _, m := range u.MetaAfter {
 		k, v = append(k, m[0]), append(v, m[1])
